@@ -622,3 +622,79 @@ Definition spec_eval (E : env) (cfa : option Z) (e : expr) : option Z :=
   | Some [v] => Some v
   | _ => None
   end.
+
+(* ==== the documented rule-set semantics ("STACK CFI registers": REG: EXPR REG: EXPR ..., INIT first,
+        applicable deltas in order, a later rule for a register replaces an earlier one) ==== *)
+Definition is_nil_l {A} (l : list A) : bool := match l with [] => true | _ => false end.
+
+(* right-to-left grouping: (tokens before the first label, [(label, its expression)]) *)
+Fixpoint split_groups (toks : list bytes) : expr * list (bytes * expr) :=
+  match toks with
+  | [] => ([], [])
+  | t :: r =>
+      let '(pre, gs) := split_groups r in
+      match strip_suffix_colon t with
+      | Some name => ([], (name, pre) :: gs)
+      | None => (t :: pre, gs)
+      end
+  end.
+(* well-formed: starts with a label, at least one rule, no empty expression *)
+Definition spec_pairs (toks : list bytes) : option (list (cfireg * expr)) :=
+  let '(pre, gs) := split_groups toks in
+  if is_nil_l pre && negb (is_nil_l gs) && forallb (fun g => negb (is_nil_l (snd g))) gs
+  then Some (map (fun g => (classify_reg (fst g), snd g)) gs)
+  else None.
+Fixpoint all_pairs (texts : list bytes) : option (list (cfireg * expr)) :=
+  match texts with
+  | [] => Some []
+  | t :: r =>
+      match spec_pairs (split_ws t), all_pairs r with
+      | Some a, Some b => Some (a ++ b)
+      | _, _ => None
+      end
+  end.
+(* the rule in force for a register: the LAST pair naming it *)
+Fixpoint last_rule (k : cfireg) (ps : list (cfireg * expr)) : option expr :=
+  match ps with
+  | [] => None
+  | (k', e) :: r =>
+      match last_rule k r with
+      | Some e' => Some e'
+      | None => if cfireg_eqb k k' then Some e else None
+      end
+  end.
+
+(* what the mock walker holds for a general register after its rule: the value, or Cleared when
+   the rule fails or the walker rejects the value *)
+Definition mock_cell (w : Z) (n : bytes) (o : option Z) : cell :=
+  match o with
+  | Some v => if starts_no n || negb (fits w v) then Cleared else SetTo v
+  | None => Cleared
+  end.
+
+(* the documented result of unwinding one frame with the mock walker: None, or (cfa, ra, registers) *)
+Definition cfi_spec (w : Z) (E : env) (r : cfi_record) (addr : Z) : option (Z * Z * (bytes -> cell)) :=
+  if cfi_covers r addr then
+    match all_pairs (snd (c_init r) :: map snd (take_applicable addr (sort_cfi (c_add r)))) with
+    | None => None
+    | Some ps =>
+        match last_rule RCfa ps, last_rule RRa ps with
+        | Some ce, Some re =>
+            match spec_eval E None ce with
+            | None => None
+            | Some cfa =>
+                match spec_eval E (Some cfa) re with
+                | None => None
+                | Some ra =>
+                    if fits w cfa && fits w ra then
+                      Some (cfa, ra, fun n => match last_rule (ROther n) ps with
+                                              | Some e => mock_cell w n (spec_eval E (Some cfa) e)
+                                              | None => Unset
+                                              end)
+                    else None
+                end
+            end
+        | _, _ => None
+        end
+    end
+  else None.
